@@ -247,9 +247,14 @@ class Environment:
         self._terminated = True
 
     def _trace_event(self, event):
+        # functools.partial actions (Maintainer's work order events) have
+        # no __name__ of their own.
+        action = event.action
+        while not hasattr(action, '__name__') and hasattr(action, 'func'):
+            action = action.func
         self._event_trace[self._event_index] = {'time': self.now,
                                                 'asset_id': event.asset_id,
-                                                'action': event.action.__name__,
+                                                'action': getattr(action, '__name__', repr(action)),
                                                 'message': event.message,
                                                 'event_type': event.event_type,
                                                 'status': event.status}
